@@ -272,6 +272,73 @@ Definition disconnect (g : global) (a : ipaddr) (r : role) : global :=
   | None => g
   end.
 
+(* the UpdatePeer request (api::Peer) as far as the harness fills it in *)
+Record upd := {
+  u_asn : N; u_local_asn : N; u_hold : N;      (* hold_time 0 = default *)
+  u_passive : bool; u_rs_client : bool; u_rr_client : bool; u_cluster : option N
+}.
+
+Definition pair_eqb (a b : N * N) : bool := (fst a =? fst b) && (snd a =? snd b).
+Fixpoint list_eqb {A} (e : A -> A -> bool) (x y : list A) : bool :=
+  match x, y with
+  | [], [] => true
+  | a :: x', b :: y' => e a b && list_eqb e x' y'
+  | _, _ => false
+  end.
+Definition trip_eqb (a b : N * N * N) : bool := pair_eqb (fst a) (fst b) && (snd a =? snd b).
+
+(* `new_local_cap != peer.config.local_cap` *)
+Definition cap_eqb (a b : cap) : bool :=
+  match a, b with
+  | CMultiProtocol f, CMultiProtocol g => f =? g
+  | CRouteRefresh, CRouteRefresh | CExtMessage, CExtMessage | CEnhancedRR, CEnhancedRR => true
+  | CExtNexthop l, CExtNexthop m | CAddPath l, CAddPath m => list_eqb pair_eqb l m
+  | CGR f t l, CGR g u m => (f =? g) && (t =? u) && list_eqb pair_eqb l m
+  | CFourOctet x, CFourOctet y => x =? y
+  | CLLGR l, CLLGR m => list_eqb trip_eqb l m
+  | CFqdn h d, CFqdn h' d' => list_eqb N.eqb h h' && list_eqb N.eqb d d'
+  | CUnknown c x, CUnknown c' x' => (c =? c') && list_eqb N.eqb x x'
+  | _, _ => false
+  end.
+
+Definition optn_eqb (a b : option N) : bool :=
+  match a, b with Some x, Some y => x =? y | None, None => true | _, _ => false end.
+
+(* update_peer: the configuration is replaced (delete-on-disconnect is kept: a
+   dynamic neighbour stays dynamic); when a session-relevant setting changed,
+   a new PeerFsm is installed and the connections are told to stop; their tasks
+   then find no connection left *)
+Definition update_peer (g : global) (a : ipaddr) (u : upd) : global :=
+  match lookup a (gl_peers g) with
+  | None => g
+  | Some p =>
+      if negb (Bool.eqb (u_rs_client u) (pe_rs_client p)) || negb (Bool.eqb (u_rr_client u) (rr_client (pe_rr p)))
+      then g
+      else
+        let la0 := confed_local_asn (gl_confed g) (gl_asn g) (u_asn u) (u_local_asn u) in
+        let la := if la0 =? 0 then gl_asn g else la0 in
+        let hold := if u_hold u =? 0 then DEFAULT_HOLD_TIME else u_hold u in
+        let caps := build_local_cap (is_v6 a) la [] None None in
+        let teardown :=
+          negb (u_asn u =? pe_expected_asn p) || negb (la =? pe_local_asn p)
+          || negb (Bool.eqb (u_passive u) (pe_passive p)) || negb (hold =? pe_hold p)
+          || negb (list_eqb cap_eqb caps (pe_local_cap p)) || negb (optn_eqb None (pe_multihop p)) in
+        let had := pe_conn_active p || pe_conn_passive p in
+        let p' :=
+          {| pe_expected_asn := u_asn u; pe_local_asn := la; pe_passive := u_passive u;
+             pe_delete := pe_delete p; pe_hold := hold; pe_local_cap := caps;
+             pe_rs_client := u_rs_client u;
+             pe_rr := {| rr_client := u_rr_client u; rr_cluster := u_cluster u |};
+             pe_router_id := gl_router_id g; pe_multihop := None; pe_ttlsec := None;
+             pe_prefix_limits := [];
+             pe_send_max := if teardown then [] else pe_send_max p;
+             pe_admin_down := pe_admin_down p;
+             pe_conn_active := if teardown then false else pe_conn_active p;
+             pe_conn_passive := if teardown then false else pe_conn_passive p |} in
+        if teardown && had && pe_delete p then set_peers g (remove a (gl_peers g))
+        else set_peers g (update a p' (gl_peers g))
+  end.
+
 Inductive op :=
 | OConnect (a : ipaddr) (r : role)
 | ODisconnect (a : ipaddr) (r : role)     (* the connection (a, r), if there is one, ends *)
@@ -279,7 +346,12 @@ Inductive op :=
 | ODisable (a : ipaddr)                   (* grpc.rs disable_peer, and the connection tasks it ends *)
 | OEnable (a : ipaddr)                    (* grpc.rs enable_peer *)
 | ODelete (a : ipaddr)                    (* grpc.rs delete_peer, and the connection tasks it ends *)
-| ODeleteReconnect (a : ipaddr) (r : role).
+| ODeleteReconnect (a : ipaddr) (r : role)
+| OUpdate (a : ipaddr) (u : upd)
+   (* grpc.rs update_peer with a request that names AS numbers, hold time,
+      passive, route-server / route-reflector flags and nothing else, and the
+      connection tasks it ends *)
+| ODisconnectRace (a : ipaddr) (rold rnew : role).
    (* delete_peer, then a new connection from the same address is admitted while
       the deleted neighbour's connection tasks are still running the end of
       PeerSession::run: they find a record that is not theirs (Arc::ptr_eq on
@@ -325,6 +397,22 @@ Definition step_op (g : global) (o : op) : global * option (option session) :=
       | None => (g, None)
       end
   | ODelete a => (set_peers g (remove a (gl_peers g)), None)
+  | OUpdate a u => (update_peer g a u, None)
+  | ODisconnectRace a rold rnew =>
+      (* the connection (a, rold) ends; between its apply_disconnect and the
+         final lock of PeerSession::run a connection (a, rnew) is admitted; the
+         old task looks at the close senders again under the lock *)
+      match lookup a (gl_peers g) with
+      | Some p =>
+          if conn_of p rold then
+            let g1 := set_peers g (update a (set_conn p rold false) (gl_peers g)) in
+            match accept_connection g1 a rnew with
+            | Accept g' s => (g', Some (Some s))
+            | Reject => (disconnect g a rold, Some None)
+            end
+          else (g, None)
+      | None => (g, None)
+      end
   | ODeleteReconnect a r =>
       let g1 := set_peers g (remove a (gl_peers g)) in
       match accept_connection g1 a r with
